@@ -129,4 +129,22 @@ mod kani_icmp {
         let new = s.tx_buffer.kani_view(MCAP, if pk >= removed { pk - removed } else { 0 }, pj);
         if pk >= removed && pk < old.count { assert!(new.hdr == old.hdr && new.size == old.size && (pj >= old.size || new.byte == old.byte), "C09.icmp.dispatch: remaining datagrams unchanged, in order"); }
     }
+
+    /// C13 for the icmp socket: poll_at = Ingress => dispatch emits nothing; a dispatch that neither sent nor dropped anything leaves no immediate deadline
+    #[kani::proof] #[kani::unwind(24)]
+    fn c13_icmp_poll_at() {
+        bufs!(rm, rp, tm, tp);
+        let mut s = any_socket(&mut rm, &mut rp, &mut tm, &mut tp);
+        let mut cx = Context::kani_ctx(Instant::from_millis(kani::any::<u16>() as i64), 1500, kani::any(), true);
+        if kani::any() { cx.kani_push_v4(Ipv4Address::from_bits(kani::any()), 24); }
+        let p = s.poll_at(&mut cx);
+        let queued = s.tx_buffer.kani_view(MCAP, 0, 0).count;
+        let mut emitted = false;
+        let r: Result<(), ()> = s.dispatch(&mut cx, |_, _| { emitted = true; Ok(()) });
+        let _ = r;
+        kani::cover!(!emitted && queued == 0, "silent dispatch reachable");
+        kani::cover!(emitted, "a queued datagram is sent");
+        if p == PollAt::Ingress { assert!(!emitted, "C13.icmp.sufficient: nothing is due when poll_at reports no deadline"); }
+        if !emitted && s.tx_buffer.kani_view(MCAP, 0, 0).count == queued { assert!(s.poll_at(&mut cx) == PollAt::Ingress, "C13.icmp.nonspinning: after a dispatch that neither sent nor dropped anything there is no immediate deadline"); }
+    }
 }
